@@ -1058,7 +1058,11 @@ class PseudoNetCDFFile(PseudoNetCDFSelfReg, object):
                     vk = getattr(target, 'id', None)
                     if isinstance(vardict.get(vk, None), np.ndarray):
                         if any(vardict[vk] is v
-                               for v in self.variables.values()):
+                               for v in self.variables.values()) or any(
+                            vardict[vk] is getattr(self, ak, None)
+                            for ak in self.ncattrs()
+                        ):
+                            # a variable or an array-valued attribute
                             vardict[vk] = vardict[vk].copy()
 
         # Assign expression to new variable.
